@@ -434,11 +434,13 @@ func (r *Resolver) Resolve(ctx context.Context, name string) (ResolveResult, err
 // 2.3.4 limits labels to 63 octets and names to 255 octets on the wire, i.e.
 // 253 characters in presentation format.
 func validName(name string) bool {
-	if len(strings.TrimSuffix(name, ".")) > 253 {
+	name = strings.TrimSuffix(name, ".")
+	if len(name) > 253 {
 		return false
 	}
 	for _, p := range strings.Split(name, ".") {
-		if len(p) > 63 {
+		// An empty label would end the name early on the wire.
+		if len(p) == 0 || len(p) > 63 {
 			return false
 		}
 	}
